@@ -40,8 +40,7 @@ def run(ctx, chk):
             for t in sorted(ts):
                 want = itu.COMM_SCHEME.get(t)
                 if want is None:
-                    mism.append("type%d-has-a-communication-state" % t)
-                    continue
+                    continue        # not one of the types C16 speaks about (C09 decides whether it may decode at all)
                 if want == "sel":
                     g = o.guard.get(("bits", 148, 1))
                     if g is None or not g.is_single():
